@@ -142,12 +142,12 @@ def gen_pin(rnd, idx):
     head = ""
     if rnd.random() < 0.3:
         # a method with a return value, called (also with the result of another call) from the constructor of its class
-        A, C = g.const(), g.const()
+        A, C, C2 = g.const(), g.const(), g.const_tree(1)
         # (the argument is a real literal: whether an int expression may be passed for a real parameter is not documented)
         e1, e2 = num(Fraction(rnd.randint(0, 99), rnd.choice([2, 4, 5, 10])), "real"), g.const_tree(1)
         if rnd.random() < 0.3:
             e1 = ("neg", e1)
-        f = lambda x: ("add", [("mul", [x, A]), C])
+        f = lambda x: ("add", [("mul", [x, A]), C, C2])
         r0 = f(e1)
         r1 = ("add", [f(r0), e2])
         try:
@@ -156,8 +156,14 @@ def gen_pin(rnd, idx):
         except (riddle.Unknown, ZeroDivisionError):
             ok = False
         if ok:
-            head = ("class K {\n    real k = %s;\n    real r0;\n    real r1;\n    K() { r0 == f(%s); r1 == f(r0) + %s; }\n    real f(real x) { return x * %s + k; }\n}\nK q = new K();\n"
-                    % (pr.expr(C), pr.expr(e1), pr.expr(e2, 3), pr.expr(A, 4)))
+            # (several declarators in one field declaration, the later ones with initialisers of their own)
+            head = ("class K {\n    real k = %s, k2 = %s;\n    real r0, r1;\n    K() { r0 == f(%s); r1 == f(r0) + %s; }\n    real f(real x) { return x * %s + k + k2; }\n}\nK q = new K();\n"
+                    % (pr.expr(C), pr.expr(C2), pr.expr(e1), pr.expr(e2, 3), pr.expr(A, 4)))
+            try:
+                expect["q.k"], expect["q.k2"] = ev(C, {}), ev(C2, {})
+                exprs["q.k"], exprs["q.k2"] = C, C2
+            except (riddle.Unknown, ZeroDivisionError):
+                pass
             expect["q.r0"], expect["q.r1"] = v0, v1
             exprs["q.r0"], exprs["q.r1"] = r0, r1
     return {"family": "pin", "id": "pin-%d" % idx, "text": head + _layout(rnd, stmts), "expect": expect, "exprs": exprs}
